@@ -35,6 +35,8 @@ bg_ghost_frontier_t bg_ghost_frontier;
 bg_ghost_lookup_t bg_ghost_lookup;
 bg_size bg_scratch_sz;
 bg_vec_sz bg_scratch_vec_sz;
+bg_real bg_scratch_real;
+bg_vec_real bg_scratch_vec_real;
 bg_scratch_val_VLabel_t bg_scratch_val_VLabel;
 bg_scratch_val_NoLabel_t bg_scratch_val_NoLabel;
 bg_scratch_val_uint_t bg_scratch_val_uint;
@@ -150,6 +152,21 @@ inline bg_vec_sz abs_vec(const std::vector<size_t> &v) {
     r.n = v.size();
     r.vP = G_P < v.size() ? v[G_P] : 0;
     r.vQ = G_Q < v.size() ? v[G_Q] : 0;
+    return r;
+}
+inline bg_vec_real abs_vec(const std::vector<double> &v) {
+    bg_vec_real r;
+    r.n = v.size();
+    r.vP = G_P < v.size() ? (bg_real)(long)v[G_P] : 0;
+    r.vQ = G_Q < v.size() ? (bg_real)(long)v[G_Q] : 0;
+    return r;
+}
+inline bg_mat_real abs_vec(const std::vector<std::vector<double>> &m) {
+    bg_mat_real r;
+    r.n = m.size();
+    r.m = m.empty() ? 0 : m[0].size();
+    r.rowP = G_P < m.size() ? abs_vec(m[G_P]) : bg_vec_real{r.m, 0, 0};
+    r.rowQ = G_Q < m.size() ? abs_vec(m[G_Q]) : bg_vec_real{r.m, 0, 0};
     return r;
 }
 inline bg_vec_u abs_vecu(const std::vector<BaseGraph::VertexIndex> &v) {
